@@ -4,10 +4,12 @@ import PauLieVerif.Model.CmdClassify
 import PauLieVerif.Model.CmdCollection
 import PauLieVerif.Model.CmdOptimise
 import PauLieVerif.Model.CmdOtoc
+import PauLieVerif.Model.CmdLinear
+import PauLieVerif.Model.CmdDecomp
 
 open PauLie
 
-def handlers : List (String → Option String) := [CmdPS.handle, CmdGraph.handle, CmdClassify.handle, CmdCollection.handle, CmdOptimise.handle, CmdOtoc.handle]
+def handlers : List (String → Option String) := [CmdPS.handle, CmdGraph.handle, CmdClassify.handle, CmdCollection.handle, CmdOptimise.handle, CmdOtoc.handle, CmdLinear.handle, CmdDecomp.handle]
 
 def respond (line : String) : String :=
   match handlers.findSome? (fun h => h line) with
